@@ -2,7 +2,10 @@ package main
 
 import (
 	"fmt"
+	"io/ioutil"
 	"math/rand"
+	"os"
+	"path/filepath"
 	"sort"
 	"strings"
 	"sync"
@@ -194,6 +197,13 @@ func checkC07(tier string) int {
 	nh := tierN(tier, 6, 50)
 	blocks := tierN(tier, 36, 120)
 	seed := verdict.Seed()
+	raceBin := os.Getenv("OLBOX_RACE_BIN")
+	raceEvery := tierN(tier, 6, 5)
+	if raceBin != "" {
+		if _, err := os.Stat(raceBin); err != nil {
+			raceBin = ""
+		}
+	}
 	r.Gate("injected_checktx", nh*blocks)
 	r.Gate("boundary_classes", 8)
 	bseen := map[string]bool{}
@@ -209,6 +219,13 @@ func checkC07(tier string) int {
 		irng := rand.New(rand.NewSource(hseed * 13))
 		cfg := drive.Cfg{Tag: "c07", Seed: hseed, Blocks: blocks, Params: params, Scripts: allScripts, Scout: true, Jumps: true, Honest: true}
 		cfg.Specs = []world.NodeSpec{{Name: "lead", Validator: w0.Vals[0], LogLevel: 1}, {Name: "twin", Validator: w0.Vals[0], LogLevel: 1}}
+		// some histories use a twin built with the race detector whose CheckTx calls come from a second
+		// goroutine through Tendermint's real mempool connection instead of from fixed boundaries
+		concurrent := raceBin != "" && i%raceEvery == raceEvery-1
+		if concurrent {
+			cfg.Envs = [][]string{nil, {"OLBOX_BIN=" + raceBin, "GORACE=halt_on_error=0 log_path=" + filepath.Join(drive.Scratch(), fmt.Sprintf("race-%d", hseed)) + "/race.log"}}
+			_ = os.MkdirAll(filepath.Join(drive.Scratch(), fmt.Sprintf("race-%d", hseed)), 0755)
+		}
 		var pool [][]byte // transactions seen so far (admitted and rejected) — re-checked later as well
 		var lastRejected [][]byte
 		var used []string
@@ -240,6 +257,14 @@ func checkC07(tier string) int {
 				}
 			}
 			if len(cands) == 0 {
+				return &alt
+			}
+			if concurrent {
+				n := 3 + irng.Intn(6)
+				for j := 0; j < n; j++ {
+					alt.Concurrent = append(alt.Concurrent, cands[irng.Intn(len(cands))])
+				}
+				used = []string{"concurrent-goroutine"}
 				return &alt
 			}
 			nb := 2 + irng.Intn(3)
@@ -312,6 +337,26 @@ func checkC07(tier string) int {
 		if res.R != nil {
 			defer res.R.Close()
 		}
+		if concurrent && res.R != nil {
+			r.Count("race_detector_histories", 1)
+			matches, _ := filepath.Glob(filepath.Join(drive.Scratch(), fmt.Sprintf("race-%d", hseed), "race.log*"))
+			for _, m := range matches {
+				bz, err := ioutil.ReadFile(m)
+				if err != nil {
+					continue
+				}
+				for _, rep := range strings.Split(string(bz), "WARNING: DATA RACE")[1:] {
+					r.Count("race_reports_total", 1)
+					// a race between the mempool check path and anything else is a C07 matter;
+					// others (start-up goroutines, services) are recorded as diagnostics
+					if strings.Contains(rep, "txChecker") || strings.Contains(rep, ").CheckTx") {
+						r.Violate(verdict.Violation{Signature: "C07/data-race/" + raceSite(rep), What: fmt.Sprintf("history seed %d: the race detector reports a data race involving the mempool check path: %s", hseed, raceSite(rep)), Witness: map[string]interface{}{"seed": hseed, "report": cut(rep, 3000)}})
+					} else {
+						r.Diag("data race outside the check path: " + raceSite(rep))
+					}
+				}
+			}
+		}
 		if res.Err != nil {
 			reportRunErr(r, "C07", hseed, res)
 			return
@@ -337,4 +382,26 @@ func classOfBoundary(b string) string {
 		return p[0] + ":" + p[1]
 	}
 	return b
+}
+
+// raceSite names a race report by the first repository frames of its two stacks.
+func raceSite(rep string) string {
+	var sites []string
+	for _, l := range strings.Split(rep, "\n") {
+		l = strings.TrimSpace(l)
+		if strings.HasPrefix(l, "github.com/Oneledger/protocol/") || strings.HasPrefix(l, "github.com/tendermint/") {
+			f := l
+			if i := strings.Index(f, "("); i > 0 {
+				f = f[:i]
+			}
+			f = strings.TrimPrefix(strings.TrimPrefix(f, "github.com/Oneledger/protocol/"), "github.com/tendermint/")
+			if len(sites) == 0 || sites[len(sites)-1] != f {
+				sites = append(sites, f)
+			}
+			if len(sites) == 2 {
+				break
+			}
+		}
+	}
+	return strings.Join(sites, "~")
 }
